@@ -77,7 +77,7 @@ def plan(tier, ctx):
                         "(c)": "level, level_buf_size: all 2^32 values each; flush all 2^16; level_buf NULL / valid; end_of_stream 0/1; gzip_flag 0..4 and avail_in 2 (0 thorough) swept; avail_out 40"},
                 stubs=["wmemset: loop (a) / 'compression reached' marker that stops the path (c)",
                        "(b) memcpy inside igzip.c replaced by a range-recording stub: payload bytes do not move; header copies are logged",
-                       "write_bits interposed for the code-length class split (see C01)",
+                       "get_lit_code class split (see C01)",
                        "(b) --slice-formula: drops the initialisation of the 200 KB dummy objects from the formula"],
                 assumptions=["(b) the fallback is entered in the state isal_deflate_stateless establishes (transcribed from igzip.c lines 1447-1466)",
                              "(c) validity of a parameter combination written from include/igzip_lib.h; undersized level buffer may answer ISAL_INVALID_LEVEL or ISAL_INVALID_LEVEL_BUF",
